@@ -230,7 +230,42 @@ def main():
         if outcome.get("detail") or outcome.get("stderr"):
             print(f"  replay[{st}]: {str(outcome.get('detail') or outcome.get('stderr'))[-300:] if st == 'error' else str(outcome.get('detail'))[:300]}")
         exit_code = 1
+    standins = []
     if not violations and undecided:
+        # BOUNDED STAND-IN: the code of a unit left the contracts' reach (library call without contract, moved target, solver
+        # budget). Its native replay scenarios (module STANDIN table, and the *_REPLAY scenarios the unit function refers to) are
+        # run on the real code with their default inputs. A scenario that FAILS is a failing input of the real code: reported as
+        # a violation. A scenario that passes proves nothing: the obligation stays undecided (exit 2).
+        by_unit = {}
+        for rec in undecided:
+            by_unit.setdefault(rec.get("unit"), rec)
+        ufuncs = dict(verify.UNITS.get(prop, []))
+        for uname, rec in by_unit.items():
+            cands = [(pat, fn) for pat, fn in getattr(mod, "STANDIN", {}).items() if re.search(pat, f"{uname} {rec['name']}")]
+            f = ufuncs.get(uname)
+            if f is not None:
+                for nm in f.__code__.co_names:
+                    g = getattr(mod, nm, None)
+                    if "REPLAY" in nm and callable(g) and all(g is not c[1] for c in cands):
+                        cands.append((nm, g))
+            for j, (tag, fn) in enumerate(cands[:4]):
+                try:
+                    sc = fn({})
+                except Exception:
+                    continue
+                if not isinstance(sc, dict) or not sc.get("code"):
+                    continue
+                srec = {"name": f"{rec['name']}.standin[{re.sub(r'[^A-Za-z0-9_]', '_', tag)[:40]}]", "function": rec.get("function"), "scenario": sc,
+                        "detail": f"bounded stand-in for undecided obligation {rec['name']} ({rec.get('reason')})", "witness": {}}
+                path, outcome = replay(prop, srec, j)
+                standins.append({"unit": uname, "scenario": tag, "status": outcome.get("status"), "replay": str(path)})
+                if outcome.get("status") == "violated":
+                    print(f"VIOLATION property={prop} replay={path}")
+                    print(f"  obligation {rec['name']} is undecided ({str(rec.get('reason'))[:160]}); its bounded stand-in (native scenario {tag}) FAILS on the real code")
+                    print(f"  replay[violated]: {str(outcome.get('detail'))[:300]}")
+                    exit_code = 1
+                    break
+    if not violations and undecided and exit_code == 0:
         for rec in undecided[:20]:
             print(f"UNDECIDED property={prop} obligation={rec['name']} reason={rec.get('reason')}")
         exit_code = 2
@@ -305,12 +340,13 @@ def main():
                             "refuted obligations are replayed on the real code under /venv/bin/python. "
                             + (getattr(mod, "EXPLANATION", "") or "")),
             "known_findings_matched": [k["what"] for k, _ in known_hits],
-            "bounded": extra.get("bounded", []) if isinstance(extra, dict) else [],
+            "bounded": (extra.get("bounded", []) if isinstance(extra, dict) else []) +
+                       ([{"kind": "native stand-in scenarios run for undecided obligations (bounded; a passing scenario proves nothing)", "runs": standins}] if standins else []),
             "repo": repo_root(),
         },
         "assumptions": sorted(assumptions | set(getattr(mod, "ASSUMPTIONS", []))),
         "wall_s": round(wall, 2),
-        "violations": len(violations),
+        "violations": len(violations) + sum(1 for x in standins if x["status"] == "violated"),
     }
     if not a.no_evidence and not a.unit:
         (HERE / "evidence").mkdir(exist_ok=True)
